@@ -19,7 +19,7 @@ def setup():
         print("harness: pulser Observable.__init__ wrapped to supply default_aggregation_method (C31)")
 
 
-def chain_matrix(weights=(5.0, 6.0, 7.0)):
+def chain_matrix(weights=(5.0, -6.0, 7.0)):        # mixed signs: |U| and U must not be confused
     m = torch.zeros(4, 4, dtype=torch.float64)
     for (a, b), w in zip([(0, 2), (2, 1), (1, 3)], weights):
         m[a, b] = m[b, a] = w
@@ -29,7 +29,7 @@ def chain_matrix(weights=(5.0, 6.0, 7.0)):
 def local_drives(steps=STEPS, n=4):
     # different on every atom AND at every step (STEPS == 4 == number of atoms of the chain scenario, so a
     # helper that treats the (steps, atoms) table as a square matrix would also shuffle the time axis)
-    om = torch.tensor([[(1.0 + k) * (1 + 0.25 * t) for k in range(n)] for t in range(steps)], dtype=torch.complex128)
+    om = torch.tensor([[6.0 * (1.0 + k) * (1 + 0.25 * t) for k in range(n)] for t in range(steps)], dtype=torch.complex128)   # strong enough for double excitations (the interaction's SIGN matters)
     de = torch.tensor([[0.1 * (k + 1) * (1 + 0.5 * t) for k in range(n)] for t in range(steps)], dtype=torch.complex128)
     ph = torch.tensor([[0.01 * (k + 1) * (1 + t) for k in range(n)] for t in range(steps)], dtype=torch.complex128)
     return om, de, ph
@@ -59,7 +59,7 @@ def make_impl(optimize, bad_atoms=None, observables=None, steps=STEPS, autosave_
                             bad_atoms=bad_atoms, state_prep_error=0.1 if bad_atoms is not None else 0.0)
     kw = {} if autosave_dt is None else {"autosave_dt": autosave_dt}
     cfg = MPSConfig(observables=observables if observables is not None else [Occupation(evaluation_times=[1.0])],
-                    optimize_qubit_ordering=optimize, log_level=50, **kw)
+                    optimize_qubit_ordering=optimize, log_level=50, precision=1e-9, **kw)    # truncation far below the 1e-6 comparisons
     return M.create_impl(sd, cfg), sd, cfg
 
 
